@@ -627,80 +627,93 @@ Qed.
 
 (** * ByLibrary *)
 
-Definition good_groups (all : list gpu) (groups : list (str * list gpu)) : Prop :=
-  Forall (fun kg => snd kg <> [] /\ Forall (fun x => In x all /\ requested x = fst kg) (snd kg)) groups.
+Section ByLib.
+  Context {A : Type}.
+  Variable key : A -> str.
 
-Lemma add_to_good all key g groups :
-  In g all -> key = requested g -> good_groups all groups -> good_groups all (add_to key g groups).
-Proof.
-  intros Hin Hkey. induction groups as [|[k l] rest IH]; intros Hg; cbn [add_to].
-  - constructor; [|constructor]. cbn [fst snd]. split; [discriminate|]. constructor; auto.
-  - inversion Hg as [|? ? (Hne & Hall) Hrest]; subst. cbn [fst snd] in *.
-    destruct (eqb_str k (requested g)) eqn:E.
-    + apply eqb_str_spec in E. constructor; [|exact Hrest]. cbn [fst snd]. split.
-      * destruct l; discriminate.
-      * apply Forall_app. split; [exact Hall|]. constructor; auto.
-    + constructor; [cbn [fst snd]; auto|]. apply IH. exact Hrest.
-Qed.
+  Definition good_groups (all : list A) (groups : list (str * list A)) : Prop :=
+    Forall (fun kg => snd kg <> [] /\ Forall (fun x => In x all /\ key x = fst kg) (snd kg)) groups.
 
-Lemma fold_add_to_good all l : forall groups,
-  (forall g, In g l -> In g all) -> good_groups all groups ->
-  good_groups all (fold_left (fun acc g => add_to (requested g) g acc) l groups).
-Proof.
-  induction l as [|g l' IH]; intros groups Hsub Hg; cbn [fold_left]; auto.
-  apply IH; [intros; apply Hsub; now right|].
-  apply add_to_good; auto. apply Hsub. now left.
-Qed.
+  Lemma add_to_good all k g groups :
+    In g all -> k = key g -> good_groups all groups -> good_groups all (add_to k g groups).
+  Proof.
+    intros Hin ->. induction groups as [|[k l] rest IH]; intros Hg; cbn [add_to].
+    - constructor; [|constructor]. cbn [fst snd]. split; [discriminate|]. constructor; auto.
+    - inversion Hg as [|? ? (Hne & Hall) Hrest]; subst. cbn [fst snd] in *.
+      destruct (eqb_str k (key g)) eqn:E.
+      + apply eqb_str_spec in E. constructor; [|exact Hrest]. cbn [fst snd]. split.
+        * destruct l; discriminate.
+        * apply Forall_app. split; [exact Hall|]. constructor; auto.
+      + constructor; [cbn [fst snd]; auto|]. apply IH. exact Hrest.
+  Qed.
+
+  Lemma fold_add_to_good all l : forall groups,
+    (forall g, In g l -> In g all) -> good_groups all groups ->
+    good_groups all (fold_left (fun acc g => add_to (key g) g acc) l groups).
+  Proof.
+    induction l as [|g l' IH]; intros groups Hsub Hg; cbn [fold_left]; auto.
+    apply IH; [intros; apply Hsub; now right|].
+    apply add_to_good; auto. apply Hsub. now left.
+  Qed.
+
+  Lemma by_library_gen_groups all grp :
+    In grp (by_library_gen key all) ->
+    grp <> [] /\ (forall x, In x grp -> In x all) /\ (forall x y, In x grp -> In y grp -> key x = key y).
+  Proof.
+    unfold by_library_gen. intros Hin. apply in_map_iff in Hin. destruct Hin as ([k l] & <- & Hin). cbn [snd].
+    pose proof (fold_add_to_good all all [] (fun g H => H) (Forall_nil _)) as Hg.
+    unfold good_groups in Hg. rewrite Forall_forall in Hg. specialize (Hg _ Hin). cbn [fst snd] in Hg.
+    destruct Hg as (Hne & Hall). rewrite Forall_forall in Hall.
+    split; [exact Hne|]. split.
+    - intros x Hx. apply Hall. exact Hx.
+    - intros x y Hx Hy. destruct (Hall x Hx) as (_ & ->). destruct (Hall y Hy) as (_ & ->). reflexivity.
+  Qed.
+
+  (** every element of the list is in some group: ByLibrary loses nothing *)
+  Lemma add_to_keeps k g (groups : list (str * list A)) x : (exists l, In l (map snd groups) /\ In x l) ->
+    exists l, In l (map snd (add_to k g groups)) /\ In x l.
+  Proof.
+    induction groups as [|[k0 l0] rest IH]; intros (l & Hl & Hx); cbn [add_to].
+    - destruct Hl.
+    - cbn [map snd] in Hl. destruct (eqb_str k0 k).
+      + destruct Hl as [<-|Hl].
+        * exists (l0 ++ [g]). split; [now left|]. apply in_or_app. now left.
+        * exists l. split; [now right|exact Hx].
+      + destruct Hl as [<-|Hl].
+        * exists l0. split; [now left|exact Hx].
+        * destruct IH as (l' & Hl' & Hx'); [now exists l|]. exists l'. split; [now right|exact Hx'].
+  Qed.
+
+  Lemma add_to_has k g (groups : list (str * list A)) : exists l, In l (map snd (add_to k g groups)) /\ In g l.
+  Proof.
+    induction groups as [|[k0 l0] rest IH]; cbn [add_to].
+    - exists [g]. split; now left.
+    - destruct (eqb_str k0 k).
+      + exists (l0 ++ [g]). split; [now left|]. apply in_or_app. right. now left.
+      + destruct IH as (l' & Hl' & Hx'). exists l'. split; [now right|exact Hx'].
+  Qed.
+
+  Lemma by_library_gen_complete all x : In x all -> exists grp, In grp (by_library_gen key all) /\ In x grp.
+  Proof.
+    unfold by_library_gen.
+    assert (Hgen : forall l groups, (In x l \/ exists grp, In grp (map snd groups) /\ In x grp) ->
+              exists grp, In grp (map snd (fold_left (fun acc g => add_to (key g) g acc) l groups)) /\ In x grp).
+    { induction l as [|g l' IH]; intros groups H; cbn [fold_left].
+      - destruct H as [[]|H]; exact H.
+      - apply IH. destruct H as [[->|H]|H]; auto.
+        + right. apply add_to_has.
+        + right. now apply add_to_keeps. }
+    intros Hin. apply Hgen. now left.
+  Qed.
+End ByLib.
 
 Lemma by_library_groups all grp :
   In grp (by_library all) ->
   grp <> [] /\ (forall x, In x grp -> In x all) /\ (forall x y, In x grp -> In y grp -> requested x = requested y).
-Proof.
-  unfold by_library. intros Hin. apply in_map_iff in Hin. destruct Hin as ([k l] & <- & Hin). cbn [snd].
-  pose proof (fold_add_to_good all all [] (fun g H => H) (Forall_nil _)) as Hg.
-  unfold good_groups in Hg. rewrite Forall_forall in Hg. specialize (Hg _ Hin). cbn [fst snd] in Hg.
-  destruct Hg as (Hne & Hall). rewrite Forall_forall in Hall.
-  split; [exact Hne|]. split.
-  - intros x Hx. apply Hall. exact Hx.
-  - intros x y Hx Hy. destruct (Hall x Hx) as (_ & ->). destruct (Hall y Hy) as (_ & ->). reflexivity.
-Qed.
-
-(** every GPU of the list is in some group: ByLibrary loses nothing *)
-Lemma add_to_keeps key g groups x : (exists l, In l (map snd groups) /\ In x l) ->
-  exists l, In l (map snd (add_to key g groups)) /\ In x l.
-Proof.
-  induction groups as [|[k l0] rest IH]; intros (l & Hl & Hx); cbn [add_to].
-  - destruct Hl.
-  - cbn [map snd] in Hl. destruct (eqb_str k key).
-    + destruct Hl as [<-|Hl].
-      * exists (l0 ++ [g]). split; [now left|]. apply in_or_app. now left.
-      * exists l. split; [now right|exact Hx].
-    + destruct Hl as [<-|Hl].
-      * exists l0. split; [now left|exact Hx].
-      * destruct IH as (l' & Hl' & Hx'); [now exists l|]. exists l'. split; [now right|exact Hx'].
-Qed.
-
-Lemma add_to_has key g groups : exists l, In l (map snd (add_to key g groups)) /\ In g l.
-Proof.
-  induction groups as [|[k l0] rest IH]; cbn [add_to].
-  - exists [g]. split; now left.
-  - destruct (eqb_str k key).
-    + exists (l0 ++ [g]). split; [now left|]. apply in_or_app. right. now left.
-    + destruct IH as (l' & Hl' & Hx'). exists l'. split; [now right|exact Hx'].
-Qed.
+Proof. apply by_library_gen_groups. Qed.
 
 Lemma by_library_complete all x : In x all -> exists grp, In grp (by_library all) /\ In x grp.
-Proof.
-  unfold by_library.
-  assert (Hgen : forall l groups, (In x l \/ exists grp, In grp (map snd groups) /\ In x grp) ->
-            exists grp, In grp (map snd (fold_left (fun acc g => add_to (requested g) g acc) l groups)) /\ In x grp).
-  { induction l as [|g l' IH]; intros groups H; cbn [fold_left].
-    - destruct H as [[]|H]; exact H.
-    - apply IH. destruct H as [[->|H]|H]; auto.
-      + right. apply add_to_has.
-      + right. now apply add_to_keeps. }
-  intros Hin. apply Hgen. now left.
-Qed.
+Proof. apply by_library_gen_complete. Qed.
 
 (** * the fit decision *)
 Lemma fit_sound all m o v :
